@@ -2,6 +2,6 @@ SPECIFICATION Spec
 CONSTANTS
   DEPTH = 8
   MAXPK = 17
-  TOTALS = {0, 1, 2, 3, 16, 99}
+  TOTALS = {0, 1, 2, 3, 16, 99, 2000000000}
 INVARIANTS Emit
 CHECK_DEADLOCK FALSE
